@@ -53,7 +53,13 @@ func silSnapshot(s *silence.Silences) string {
 	}
 	var rows []string
 	for _, x := range sils {
-		rows = append(rows, fmt.Sprintf("%s upd=%d end=%d", x.Id, x.UpdatedAt.AsTime().UnixNano(), x.EndsAt.AsTime().UnixNano()))
+		var ann []string
+		for k, v := range x.Annotations {
+			ann = append(ann, k+"="+v)
+		}
+		sort.Strings(ann)
+		rows = append(rows, fmt.Sprintf("%s upd=%d start=%d end=%d by=%q comment=%q annotations=%v matchers=%d", x.Id, x.UpdatedAt.AsTime().UnixNano(),
+			x.StartsAt.AsTime().UnixNano(), x.EndsAt.AsTime().UnixNano(), x.CreatedBy, x.Comment, ann, len(x.MatcherSets)))
 	}
 	sort.Strings(rows)
 	return fmt.Sprint(rows)
@@ -125,7 +131,84 @@ func judgeBigFullState(run *vh.Run, sizes []int) {
 	}
 }
 
+// judgeOversizedUpdate: a single silence whose wire record is larger than the gossip packet limit (long comment /
+// annotations / many matchers) is an "oversized" update: the sender's Channel hands it to memberlist's reliable (TCP)
+// send for every member, and the receiver's memberlist gives it to the same delegate.NotifyMsg as a gossip packet.
+// Real cluster.Peers on loopback (harness/joinsync, public API), the sender's silences wired to the AddState channel
+// as cmd/alertmanager does, periodic push/pull off: a few seconds after the Set the peer must hold the silence,
+// whatever its size (701 bytes .. tens of KiB).
+func judgeOversizedUpdate(run *vh.Run, sizes []int) {
+	ctx := context.Background()
+	mk := func() *silence.Silences {
+		s, err := silence.New(silence.Options{Retention: time.Hour, Metrics: prometheus.NewRegistry()})
+		if err != nil {
+			panic(err)
+		}
+		return s
+	}
+	a, b := mk(), mk()
+	aport, err := joinsync.FreePort()
+	if err != nil {
+		run.Count("oversized_update_part", "skipped: "+err.Error())
+		return
+	}
+	pa, chs, err := joinsync.StartWithChannels("am-a", aport, nil, []joinsync.NamedState{{Key: "sil", State: a}})
+	if err != nil {
+		run.Count("oversized_update_part", "skipped: "+err.Error())
+		return
+	}
+	defer pa.Leave(time.Second)
+	a.SetBroadcast(chs["sil"].Broadcast)
+	bport, err := joinsync.FreePort()
+	if err != nil {
+		run.Count("oversized_update_part", "skipped: "+err.Error())
+		return
+	}
+	pb2, err := joinsync.Start("am-b", bport, []string{joinsync.Addr(aport)}, []joinsync.NamedState{{Key: "sil", State: b}})
+	if err != nil {
+		run.Count("oversized_update_part", "skipped: "+err.Error())
+		return
+	}
+	defer pb2.Leave(time.Second)
+	if !joinsync.WaitFor(10*time.Second, func() bool { return len(pa.Peers()) >= 2 && len(pb2.Peers()) >= 2 }) {
+		run.Count("oversized_update_part", "skipped: the two members did not see each other")
+		return
+	}
+	for _, n := range sizes {
+		now := time.Now()
+		long := make([]byte, n)
+		for i := range long {
+			long[i] = "planned maintenance of the primary database cluster; "[i%53]
+		}
+		sil := &pb.Silence{
+			MatcherSets: []*pb.MatcherSet{{Matchers: []*pb.Matcher{{Type: pb.Matcher_EQUAL, Name: "job", Pattern: fmt.Sprintf("db-%d", n)}}}},
+			StartsAt:    timestamppb.New(now), EndsAt: timestamppb.New(now.Add(time.Hour)), Comment: string(long[:n/2]), CreatedBy: "verif",
+			Annotations: map[string]string{"description": string(long[n/2:])},
+		}
+		if err := a.Set(ctx, sil); err != nil {
+			run.Count("oversized_update_part", "skipped: Set failed: "+err.Error())
+			continue
+		}
+		id := sil.Id
+		ok := joinsync.WaitFor(6*time.Second, func() bool {
+			got, err := b.QueryOne(ctx, silence.QIDs(id))
+			return err == nil && got.Comment == sil.Comment && got.Annotations["description"] == sil.Annotations["description"]
+		})
+		if ok {
+			run.Count("oversized_update_part", fmt.Sprintf("silence with %d bytes of text reached the peer", n))
+		} else {
+			run.Count("oversized_update_part", fmt.Sprintf("silence with %d bytes of text did NOT reach the peer", n))
+			run.Violate("oversized-silence-update-not-received", fmt.Sprintf("a silence with %d bytes of comment+annotations (an update above the %d-byte gossip limit, sent over the reliable channel) set on one member did not reach the other within 6 s (periodic push/pull is off)", n, cluster.MaxGossipPacketSize),
+				Case{Chan: &ChanParams{Seed: uint64(n), Cases: -2}})
+		}
+	}
+}
+
 func judgeChannel(t *testing.T, run *vh.Run, p ChanParams) {
+	if p.Cases == -2 { // replay of an oversized-update case: Seed carries the text size
+		judgeOversizedUpdate(run, []int{int(p.Seed)})
+		return
+	}
 	if p.Cases < 0 { // replay of a big-full-state case: Seed carries the number of silences
 		judgeBigFullState(run, []int{int(p.Seed)})
 		return
@@ -136,6 +219,7 @@ func judgeChannel(t *testing.T, run *vh.Run, p ChanParams) {
 			sizes = []int{300, 1500, 5000}
 		}
 		judgeBigFullState(run, sizes)
+		judgeOversizedUpdate(run, []int{300, 900, 1500, 4000, 30000})
 	}()
 	g := vh.NewRand(p.Seed)
 	for k := 0; k < p.Cases; k++ {
@@ -170,9 +254,25 @@ func judgeChannel(t *testing.T, run *vh.Run, p ChanParams) {
 				sil := &pb.Silence{
 					MatcherSets: []*pb.MatcherSet{{Matchers: []*pb.Matcher{{Type: pb.Matcher_EQUAL, Name: "job", Pattern: fmt.Sprintf("db-%d", r.Intn(1000))}}}},
 					StartsAt:    timestamppb.New(now), EndsAt: timestamppb.New(now.Add(time.Duration(20+r.Intn(40)) * time.Minute)), Comment: "maintenance", CreatedBy: "verif",
+					Annotations: map[string]string{"ticket": fmt.Sprintf("OPS-%d", r.Intn(1000)), "runbook": "https://wiki.example.org/runbooks/db"},
 				}
 				switch {
 				case kind == 0 || len(ids) == 0: // create
+				case kind == 4 || kind == 5: // in-place edit of the ANNOTATIONS only (4) / pure re-save (5): only UpdatedAt (and annotations) move
+					id := ids[r.Intn(len(ids))]
+					prev, err := a.QueryOne(ctx, silence.QIDs(id))
+					if err != nil {
+						return
+					}
+					ann := map[string]string{}
+					for k, v := range prev.Annotations {
+						ann[k] = v
+					}
+					if kind == 4 {
+						ann["ticket"] = fmt.Sprintf("OPS-%d-reopened", r.Intn(1000))
+						ann["note"] = "extended by on-call"
+					}
+					sil = &pb.Silence{Id: id, MatcherSets: prev.MatcherSets, StartsAt: prev.StartsAt, EndsAt: prev.EndsAt, Comment: prev.Comment, CreatedBy: prev.CreatedBy, Annotations: ann}
 				case kind == 1: // edit the matchers: Set expires the old silence and creates a new one
 					sil.Id = ids[r.Intn(len(ids))]
 				case kind == 2: // in-place update (same matchers, new end)
@@ -230,9 +330,25 @@ func judgeChannel(t *testing.T, run *vh.Run, p ChanParams) {
 			}
 			for n := r.Range(2, 4); n > 0; n-- {
 				for m := r.Range(2, 6); m > 0; m-- {
-					edit(r.Intn(4))
+					edit(r.Intn(6))
 				}
 				drain()
+			}
+			// every case: an annotations-only edit and a pure re-save of a silence the peer already holds, alone in their
+			// gossip round; then the same over the full-state path
+			edit(4)
+			drain()
+			edit(5)
+			drain()
+			edit(4)
+			pending = nil
+			for i := 0; i < 200 && len(q.GetBroadcasts(2, cluster.MaxGossipPacketSize)) > 0; i++ { // this one is NOT gossiped
+			}
+			if full, err := a.MarshalBinary(); err == nil {
+				_ = b.Merge(full) // delegate.MergeRemoteState
+				if sa, sb := silSnapshot(a), silSnapshot(b); sa != sb {
+					viol["full-state-does-not-bring-latest-version"] = "after the peer merged the sender's full state: sender holds " + sa + ", peer holds " + sb
+				}
 			}
 			close(stopc)
 			synctest.Wait()
